@@ -46,6 +46,7 @@ func (e *engine) Info() core.Info {
 		TimeStatement: "no clock exists in index/rtree; simulated time = number of operations applied",
 		Assumptions: []string{
 			"objects are comparable (pointers and Point values) with valid boxes Min<=Max and finite coordinates, as the property states",
+			"coordinate magnitudes: ordinary scales in most runs; for C11 also whole histories at scales 1e-160..1e150 and single trees mixing magnitudes from 1e-160 to 1e150 (areas and area ratios at both ends of the float64 range); for C12 only 1e-100..1e150, because where squared coordinate differences underflow (two coordinates one ulp apart at scale 1e-157) the unchanged library already ranks distinct distances as equal — a float-range limit observed in an experiment, not claimed",
 			"the multiset model and the oracle's own distance/intersection predicates (written independently of index/rtree/geom.go) are correct",
 			"structural invariants are read through the add-only verif hook index/rtree/walk_verif.go (read-only walk)",
 		},
@@ -67,6 +68,8 @@ type stored struct {
 }
 
 type run struct {
+	wide      bool
+	wideMags  []float64
 	forceWalk bool
 	mixed     bool // coordinates of very different magnitudes within one tree
 	ring      bool // most objects are points on one circle (equidistant from its centre)
@@ -133,10 +136,24 @@ func (r *run) fail(class, detail, format string, a ...interface{}) {
 	}
 }
 
+// Magnitudes at the ends of the float64 range (areas and area ratios overflow
+// or go subnormal there). The nearest-neighbour property is only checked where
+// the squares of coordinate differences are normal numbers: at scales around
+// 1e-157 two coordinates one ulp apart are 1e-172 apart, the library's squared
+// distance underflows to 0 and the unchanged tree already ranks them as equal
+// (observed; a float-range limit, stated under assumptions).
+var extremeMags = []float64{1e-160, 1e-100, 1e-5, 1, 1e100, 1e150}
+var extremeScales = []float64{1e-157, 1e-160, 1e-150, 1e100, 1e150}
+var extremeMagsNN = []float64{1e-100, 1e-5, 1, 1e100, 1e150}
+var extremeScalesNN = []float64{1e-100, 1e-60, 1e100, 1e150}
+
 func (r *run) coord(label string) float64 {
 	if r.mixed {
 		// one tree, magnitudes from 1e-8 to 1e9
 		m := []float64{1e-8, 1e-3, 1, 1, 1e3, 1e9}[r.t.Choose(6, "coord-mag")]
+		if r.wide {
+			m = r.wideMags[r.t.Choose(len(r.wideMags), "coord-mag-wide")]
+		}
 		return float64(r.t.Choose(40, label)) * m
 	}
 	if r.grid > 0 {
@@ -296,6 +313,21 @@ func (r *run) exec() {
 	if r.mixed {
 		r.grid = 0
 		r.res.Probe("mixed-magnitude-history")
+		if t.OneIn(2, "cfg-wide-magnitudes") {
+			r.wide = true
+			r.wideMags = extremeMags
+			if r.prop != "C11" {
+				r.wideMags = extremeMagsNN
+			}
+			r.res.Probe("magnitudes-hundreds-of-decades-apart")
+		}
+	} else if r.grid > 0 && t.OneIn(10, "cfg-extreme-scale") {
+		es := extremeScales
+		if r.prop != "C11" {
+			es = extremeScalesNN
+		}
+		r.scale = es[t.Choose(len(es), "cfg-extreme-scale-v")]
+		r.res.Probe("extreme-coordinate-scale")
 	}
 	if t.OneIn(12, "cfg-ring") {
 		r.ring, r.ringR = true, []float64{1, 100, 0.5, 1000}[t.Choose(4, "cfg-ring-r")]
